@@ -412,3 +412,63 @@ func ruleTMPLNODEID(c *Ctx) {
 		c.addT(rule, "count:", "", CountDropped, "only %d node type identifiers found in the Go templates", n)
 	}
 }
+
+// TMPL(err-first): a runtime lookahead rule with several predicate cases is generated as a chain
+// `if ok, err = lookahead(A); … else if ok, err = lookahead(B); …`. Each call may return the
+// context's error; the next call in the chain assigns err again. So in the cancellable variant the
+// text after every call in the chain (both in lookaheadRule and in applyRule) must test the
+// error first and leave: `; err != nil { return … } else if [!]ok {`. Otherwise a cancellation
+// seen by the first predicate is overwritten by the second one and the parser goes on with an
+// answer that was never computed. (The committed parsers have single-case rules only; this is
+// decided on the template for all grammars.)
+func ruleTMPLERRFIRST(c *Ctx) {
+	const rule = "TMPL(err-first)"
+	tf, err := c.templates()
+	if err != nil {
+		c.Lost(rule, "gen/templates", "%v", err)
+		return
+	}
+	f := tf["go_parser.go.tmpl"]
+	if f == nil {
+		c.Lost(rule, "go_parser.go.tmpl", "template not found")
+		return
+	}
+	n := 0
+	for _, dn := range sortedTreeKeys(f.Trees) {
+		var visit func(list *parse.ListNode, inCases bool)
+		visit = func(list *parse.ListNode, inCases bool) {
+			if list == nil {
+				return
+			}
+			for _, nd := range list.Nodes {
+				switch x := nd.(type) {
+				case *parse.RangeNode:
+					visit(x.List, inCases || strings.Contains(x.Pipe.String(), ".Cases"))
+					visit(x.ElseList, inCases)
+				case *parse.IfNode:
+					if inCases && strings.Contains(x.Pipe.String(), ".Options.Cancellable") && x.List != nil && len(x.List.Nodes) > 0 {
+						if tn, ok := x.List.Nodes[0].(*parse.TextNode); ok && strings.HasPrefix(strings.TrimSpace(string(tn.Text)), ";") {
+							n++
+							key := fmt.Sprintf("go_parser.go.tmpl#%s:chain-test#%d", dn, n)
+							txt := strings.Join(strings.Fields(string(tn.Text)), " ")
+							if strings.HasPrefix(txt, "; err != nil { return") {
+								c.addT(rule, key, tmplPos(f, tn), OK, "the error of a lookahead call is tested, and returned, before its answer is used or the next predicate is evaluated")
+							} else {
+								c.addT(rule, key, tmplPos(f, tn), Violation, "after a cancellable lookahead call the chain continues with `%s` instead of testing err first: with two or more predicate cases the next call overwrites a cancellation error and the parse goes on with a wrong answer", txt)
+							}
+						}
+					}
+					visit(x.List, inCases)
+					visit(x.ElseList, inCases)
+				case *parse.WithNode:
+					visit(x.List, inCases)
+					visit(x.ElseList, inCases)
+				}
+			}
+		}
+		visit(f.Trees[dn].Root, false)
+	}
+	if n < 2 {
+		c.addT(rule, "count:", "", CountDropped, "only %d predicate chains found in go_parser.go.tmpl (lookaheadRule and applyRule confirmed by hand)", n)
+	}
+}
